@@ -100,6 +100,9 @@ func Compare(a, b Value) int {
 
 type Table struct {
 	Name string
+	// DB is the database the table was created in ("" for virtual tables): a column reference that names a
+	// database must name this one, as in MySQL
+	DB   string
 	Cols []string
 	// Kinds, when set, gives the column classes ('i' integer, 's' string): a canonical integer string stored
 	// into an integer column becomes that integer, as in MySQL
@@ -137,7 +140,7 @@ func NewStore() *Store { return &Store{Tables: map[string]*Table{}} }
 func Key(db, table string) string { return strings.ToLower(db) + "." + strings.ToLower(table) }
 
 func (s *Store) Create(db, table string, cols []string) *Table {
-	t := &Table{Name: table, Cols: append([]string{}, cols...)}
+	t := &Table{Name: table, DB: db, Cols: append([]string{}, cols...)}
 	s.Tables[Key(db, table)] = t
 	return t
 }
@@ -190,6 +193,7 @@ type exec struct {
 // joinSrc is one table of a join inside the virtual table: its columns are Cols[off : off+n].
 type joinSrc struct {
 	alias, name string
+	db          string
 	off, n      int
 }
 
@@ -296,7 +300,7 @@ func (e *exec) joinSide(n ast.ResultSetNode) (*Table, []joinSrc, error) {
 	if err != nil {
 		return nil, nil, err
 	}
-	return t, []joinSrc{{alias: alias, name: t.Name, off: 0, n: len(t.Cols)}}, nil
+	return t, []joinSrc{{alias: alias, name: t.Name, db: t.DB, off: 0, n: len(t.Cols)}}, nil
 }
 
 // table resolves the single table of a FROM / UPDATE / DELETE clause and its alias.
@@ -605,6 +609,9 @@ func (e *exec) column(c *ast.ColumnName, rc *rowCtx) (Value, error) {
 			if c.Table.O != "" && !strings.EqualFold(c.Table.O, src.alias) && !strings.EqualFold(c.Table.O, src.name) {
 				continue
 			}
+			if c.Schema.O != "" && src.db != "" && !strings.EqualFold(c.Schema.O, src.db) {
+				continue
+			}
 			for i := src.off; i < src.off+src.n; i++ {
 				if strings.EqualFold(rc.t.Cols[i], c.Name.O) {
 					return rc.row[i], nil
@@ -615,6 +622,9 @@ func (e *exec) column(c *ast.ColumnName, rc *rowCtx) (Value, error) {
 	}
 	if c.Table.O != "" && !strings.EqualFold(c.Table.O, rc.alias) && !strings.EqualFold(c.Table.O, rc.t.Name) {
 		return Value{}, fmt.Errorf("unknown table %q in column reference", c.Table.O)
+	}
+	if c.Schema.O != "" && rc.t.DB != "" && !strings.EqualFold(c.Schema.O, rc.t.DB) {
+		return Value{}, fmt.Errorf("unknown table %q.%q in column reference (the table is in database %q)", c.Schema.O, c.Table.O, rc.t.DB)
 	}
 	i := rc.t.col(c.Name.O)
 	if i < 0 {
